@@ -399,7 +399,7 @@ func (w *World) buildGenesis() error {
 		TokenList:          []ethchain.ERC20Token{{TokName: "TTC", TokAddr: ethcmn.HexToAddress("0x00000000000000000000000000000000000c0de3"), TokAbi: contract.ERC20BasicABI, TokTotalSupply: "2000000000000000000"}},
 		ContractAddress:    w.EthContract,
 		ERCContractAddress: ethcmn.HexToAddress("0x00000000000000000000000000000000000c0de2"),
-		TotalSupply:        "2000000000000000000",
+		TotalSupply:        "200000000000000000000",
 		TotalSupplyAddr:    "oneledgerSupplyAddress",
 		BlockConfirmation:  12,
 	}
